@@ -293,6 +293,28 @@ def dom_cycle(ctx, prog):
         ctx.fail(R, "cycle-test", "the cycle test does not diverge on equality or does not dominate the "
                  "height repair", fn=F)
     ctx.floor(R, len(acts) + len(tests), 3)
+    # who may raise a height: the cycle test guards only ensure_height_requirement, so every other way of
+    # queueing a node in the adjust-heights heap or of raising a height inside the loop bypasses it
+    allowed = {
+        "AdjustHeightsHeap::add_unless_mem": {q.AHH + "ensure_height_requirement"},
+        "AdjustHeightsHeap::set_height": {q.AHH + "ensure_height_requirement", q.STATE + "set_height"},
+    }
+    n = 0
+    for callee, okset in sorted(allowed.items()):
+        T = ctx.need_fn(R, q.AHH + callee.split("::")[1])
+        if T is None:
+            continue
+        for t in prog.callers(T):
+            n += 1
+            ctx.site(R, t.fn, "bb%d call %s" % (t.bb, callee))
+            inst = "raiser:%s:%s" % (callee.split("::")[1], t.fn.short)
+            if q.strip_generics(t.fn.path) in {q.strip_generics(x) for x in okset}:
+                ctx.ok(R, inst)
+            else:
+                ctx.fail(R, inst, "%s is called from %s, outside ensure_height_requirement: heights raised there "
+                         "are not covered by the cycle test (a cycle through a bind would loop or overflow "
+                         "instead of panicking)" % (callee, t.fn.short), fn=t.fn, span=t.span)
+    ctx.floor(R, n, 3)
 
 
 def dom_world(ctx, prog):
